@@ -102,7 +102,14 @@ func (s *Sys) CompareDevices(dev map[string]Tree, prop, oracle string, skip ...m
 		}
 		got := s.Devs[t].State
 		if !got.Equal(want) {
-			s.Report(prop, oracle, "device-differs", fmt.Sprintf("device %s differs from the model (- expected only, + device only): %s", t, want.Diff(got)))
+			shape := "device-differs"
+			if s.beneathRefusedDelete(t, want, got) {
+				// a recorded finding has this shape (known-findings.txt): every differing leaf lies beneath a node that a
+				// change the device REFUSED had deleted - the stored configuration carries that delete, the device never saw
+				// it, and a later rollback (or re-creation) beneath the node pushes the tombstone to the device
+				shape = "device-differs:beneath-node-deleted-by-a-refused-change"
+			}
+			s.Report(prop, oracle, shape, fmt.Sprintf("device %s differs from the model (- expected only, + device only): %s", t, want.Diff(got)))
 			return
 		}
 	}
@@ -170,4 +177,51 @@ func (m *c06) AtQuiescence() {
 	s.CompareTargets(mod, "C06", "get-vs-model")
 	// devices, once applied
 	s.CompareDevices(s.DeviceFold(mod), "C06", "device-vs-model")
+}
+
+// beneathRefusedDelete reports whether every leaf in which the device differs from the model lies beneath a node deleted by
+// a change of that target whose apply the records show as FAILED.
+func (s *Sys) beneathRefusedDelete(t string, want, got Tree) bool {
+	mod := s.PredictedFold()
+	var dels []Path
+	for i, mt := range mod.Txs {
+		p := s.Rec.Props[fmt.Sprintf("%s-%d", t, i)]
+		if mt == nil || p == nil || p.Status.Phases.Apply == nil || p.Status.Phases.Apply.State != configapi.ProposalApplyPhase_FAILED {
+			continue
+		}
+		for _, o := range mt.Ops[t] {
+			if o.Del {
+				dels = append(dels, o.P)
+			}
+		}
+	}
+	if len(dels) == 0 {
+		return false
+	}
+	under := func(p Path) bool {
+		for _, d := range dels {
+			if p.HasPrefix(d) {
+				return true
+			}
+		}
+		return false
+	}
+	n := 0
+	for k, l := range want {
+		if g, ok := got[k]; !ok || g.V != l.V {
+			n++
+			if !under(l.P) {
+				return false
+			}
+		}
+	}
+	for k, l := range got {
+		if _, ok := want[k]; !ok {
+			n++
+			if !under(l.P) {
+				return false
+			}
+		}
+	}
+	return n > 0
 }
